@@ -498,14 +498,30 @@ def is_counter_field(d, i):
 
 
 def counter_fields(f):
-    """[(type key, field name, field type)] for all hasher-state structs of the hash crates."""
+    """[(type key, field path, integer field type, owning struct)] for all hasher-state structs of the hash
+    crates; a counter that is itself a small workspace struct of integers (e.g. a tweak type) contributes its
+    integer leaves."""
     out = []
+
+    def leaves(t, path, depth=0):
+        d = f.types.get(t)
+        if d and d.get("kind") == "struct" and d.get("krate") in HASH_CRATES and d.get("variants") and depth < 3 \
+                and d.get("size", 99) <= 32:
+            r = []
+            for fl in d["variants"][0]["fields"]:
+                r += leaves(fl["ty"], path + "." + fl["name"], depth + 1)
+            return r
+        return [(path, t)]
     for k, d in f.types.items():
         if d.get("kind") == "struct" and d.get("krate") in HASH_CRATES and d.get("variants"):
-            for i, fl in enumerate(d["variants"][0]["fields"]):
-                if is_counter_field(d, i) and (any(x["ty"].startswith("block_buffer::BlockBuffer<") for x in d["variants"][0]["fields"])
-                                               or "State" in d.get("def", "")):
-                    out.append((k, fl["name"], fl["ty"], d))
+            fields = d["variants"][0]["fields"]
+            hosts = any(x["ty"].startswith("block_buffer::BlockBuffer<") for x in fields) or "State" in d.get("def", "")
+            if not hosts:
+                continue
+            for i, fl in enumerate(fields):
+                if is_counter_field(d, i):
+                    for path, ty in leaves(fl["ty"], fl["name"]):
+                        out.append((k, path, ty, d))
     return out
 
 
@@ -648,7 +664,8 @@ def c17_structural(report):
                 has = k in seen_types or any(x["ty"] in seen_types for x in fs)
                 if not has:
                     report.violated("R17.3", "%s:no-counter" % facts.abbrev(k)[:60], "hasher state %s has no integer length / block counter field" % facts.abbrev(k)[:60])
-    report.floor("counter fields recognised by type", len(cf), 13)
+    fams = {c[3].get("krate") for c in cf}
+    report.floor("hash crates with a recognised counter field (blake, groestl, jh, skein)", len(fams), 4)
     # positive control
     fc = facts.load("CONTROLS", "verif_controls")
     hits = 0
